@@ -112,6 +112,7 @@ func run(raw json.RawMessage) driver.Result {
 	}
 	defaults := reflect.New(T)
 	rty.GenValue(r, defaults.Elem(), rty.VOpts{NilNum: 1, NilDen: 3}, 0)
+	aliased := rty.AliasUserPtrs(r, defaults.Elem())
 	PT := ptrify.Pointerify(T, defaults.Elem())
 	nl := r.Intn(6)
 	layers := make([]reflect.Value, nl)
@@ -123,6 +124,7 @@ func run(raw json.RawMessage) driver.Result {
 		den := 4
 		num := r.Intn(den + 1) // probability of "unset" for this layer: 0, 1/4, ..., 1
 		rty.GenValue(r, l.Elem(), rty.VOpts{NilNum: num, NilDen: den}, 0)
+		aliased += rty.AliasUserPtrs(r, l.Elem())
 		if r.Chance(1, 3) {
 			layers[i] = l // pointer layer: dereferenced automatically by compose
 		} else {
@@ -147,6 +149,9 @@ func run(raw json.RawMessage) driver.Result {
 	var roundTerms []string
 	var direct []string
 	tags := []string{fmt.Sprintf("layers-%d", nl), fmt.Sprintf("rounds-%d", rounds)}
+	if aliased > 0 {
+		tags = append(tags, "aliased-user-pointers")
+	}
 	for round := 0; round < rounds; round++ {
 		sel := layers
 		selTerms := layerTerms
